@@ -12,10 +12,22 @@ type Config struct {
 	Mode       string // "min" | "max" | "" — under "" only one-sided dice have a fixed value
 	Fate       bool   // EnableDiceFate: `f` is a fate die (otherwise the identifier f)
 
-	// RefuseSharedText makes the reference refuse the string form of a container
-	// that holds the same array/dict twice (see value.go).
-	RefuseSharedText bool
+	// Refuse names corners the caller wants kept out of judgement (open findings):
+	// when one is met the program is refused instead of decided.  Without the
+	// entry the corner is decided and recorded in Interp.Events.
+	//   shared_container_text   string form of a container that holds the same array/dict twice
+	//   computed_redefinition   a `&name = expr` statement executed again after an instance it
+	//                           created earlier received attributes, or an attribute written to an
+	//                           instance of a statement that has run more than once
+	//   big_int_sum             sum/kh/kl of an all-int array with an element or partial sum beyond 2^53
+	Refuse map[string]bool
 }
+
+const (
+	CornerSharedText = "shared_container_text"
+	CornerCompRedef  = "computed_redefinition"
+	CornerBigSum     = "big_int_sum"
+)
 
 // ScriptError is an error the language prescribes (type error, bad index,
 // arity, division by zero …).  Only its presence is ever compared, never its text.
@@ -26,7 +38,10 @@ func (e *ScriptError) Error() string { return "script error: " + e.Msg }
 // Unsupported means the reference refuses to decide this program: a construct
 // outside the documented core language, an undocumented corner, an
 // implementation-defined conversion or an exhausted step budget.
-type Unsupported struct{ Why string }
+type Unsupported struct {
+	Why    string
+	Corner string // set when the refusal was requested through Config.Refuse
+}
 
 func (e *Unsupported) Error() string { return "unsupported: " + e.Why }
 
@@ -39,6 +54,13 @@ type Interp struct {
 	// written as ("" = unknown); it is only used to compare stored source text.
 	SrcOf func(n *gen.Node) string
 
+	// Events records the corners (see Config.Refuse) met since the interpreter was created.
+	Events map[string]bool
+
+	// instances of computed values per defining statement (for CornerCompRedef)
+	compRuns map[*gen.Node][]*Comp
+	compDef  map[*Comp]*gen.Node
+
 	// Trace, when set, receives classification events ("op:+:int,float", "call:func", …).
 	Trace func(event string)
 
@@ -50,7 +72,20 @@ type Interp struct {
 }
 
 func New(cfg Config) *Interp {
-	return &Interp{Store: map[string]*Value{}, Cfg: cfg}
+	return &Interp{Store: map[string]*Value{}, Cfg: cfg, Events: map[string]bool{},
+		compRuns: map[*gen.Node][]*Comp{}, compDef: map[*Comp]*gen.Node{}}
+}
+
+// corner: a situation an open finding is about.  Refused when the caller asked for that, else recorded.
+func (in *Interp) corner(name, why string) {
+	if in.Cfg.Refuse[name] {
+		panic(&Unsupported{Why: why, Corner: name})
+	}
+	in.Events[name] = true
+}
+
+func (in *Interp) onSharedText() {
+	in.corner(CornerSharedText, "string form of a container that holds the same array or dict twice")
 }
 
 // act is one activation: the top-level program, a function call or the
@@ -385,6 +420,9 @@ func (in *Interp) evalOpt(a *act, n *gen.Node) *Value {
 func (in *Interp) setAttr(obj *Value, name string, v *Value) {
 	switch obj.K {
 	case KComp:
+		if def := in.compDef[obj.Comp]; def != nil && len(in.compRuns[def]) > 1 {
+			in.corner(CornerCompRedef, "attribute written to a computed value whose defining statement has run more than once")
+		}
 		obj.Comp.Attrs[name] = v
 	case KDict:
 		obj.Dict.M[name] = v
@@ -403,6 +441,7 @@ func (in *Interp) setItem(obj, idx, v *Value) {
 		if !ok {
 			fail("index out of range")
 		}
+		needOrder(obj, "item assignment")
 		obj.Arr.List[i] = v
 	case KDict:
 		k, ok := DictKey(idx)
@@ -463,6 +502,8 @@ func (in *Interp) setSlice(obj, lo, hi, v *Value) {
 		// Python inserts at x, the implementation at y; the guide shows neither
 		refuse("slice assignment with reversed bounds")
 	}
+	needOrder(obj, "slice assignment")
+	needOrder(v, "slice assignment")
 	src := append([]*Value(nil), v.Arr.List...)
 	out := make([]*Value, 0, int(n)+len(src))
 	out = append(out, obj.Arr.List[:x]...)
